@@ -140,15 +140,13 @@ class Prog:
 
     def exit(self, ret=None):
         at, s, g, head = self.open.pop()
-        x = self.fresh()
-        self.stmts.append(("exit", ret, x))
+        self.stmts.append(("exit", ret))
         if ret is not None:
             self.emit(f"v{ret}")
-            self.info[x] = dict(self.info[ret])
         self.indent -= 1
-        self.rust[at] = "    " * self.indent + (f"let mut v{x} = " if ret is not None else "") + head
+        self.rust[at] = "    " * self.indent + (f"let mut v{ret} = " if ret is not None else "") + head
         self.emit("});")
-        return x
+        return ret
 
     def use(self, x):
         self.stmts.append(("use", x)); self.emit(f"touch(&v{x});")
